@@ -274,11 +274,14 @@ def profile_for(pid, tier):
         G["axis1"] = 0.6
         G["vec_param"] = 0.3
     elif pid == "C13":
-        G["root_kinds"] = {"switch": 5, "or_else": 2, "mix": 2, "static": 1, "vmap": 1}
+        G["root_kinds"] = {"switch": 5, "or_else": 3, "mix": 2, "static": 2, "vmap": 1}
         P["oob_index"] = 0.25
         P["argchange"] = 0.7
         P["undo_after"] = {"update": 0.5, "static_edit": 0.5, "empty_edit": 0.3}
         P["ops"].update({"update": 7, "static_edit": 2, "empty_edit": 2})
+        P["keep_index"] = 0.6
+        G["choice_switch"] = 0.3
+        P["dep_switch_bias"] = 0.6
     elif pid == "C14":
         G["root_kinds"] = {"mask": 5, "vmap": 2, "static": 2}
         G["kinds"]["mask"] = 6
@@ -310,6 +313,8 @@ def profile_for(pid, tier):
         G["kinds"].update({"scan": 5, "vmap": 4, "mask": 3, "switch": 5, "or_else": 2, "mix": 2})
         P["argchange"] = 0.55
         P["undo_after"] = {"static_edit": 0.6, "index_edit": 0.5, "update": 0.3, "regenerate": 0.3}
+        G["choice_switch"] = 0.2
+        P["dep_switch_bias"] = 0.6
     elif pid == "C07":
         P["ops"].update({"regenerate": 9, "undo": 2})
         P["sel_bias"] = {"term": 0.25, "or": 0.2, "and": 0.25, "not": 0.3}
@@ -326,6 +331,7 @@ def profile_for(pid, tier):
         P["ops"].update({"update": 10})
         P["argchange"] = 0.6
         G["kinds"].update({"mask": 4, "switch": 4})
+        P["keep_index"] = 0.5
     elif pid == "C10":
         P["ops"].update({"project": 8})
         P["sel_bias"] = {"term": 0.25, "or": 0.2, "and": 0.25, "not": 0.3}
@@ -355,8 +361,10 @@ def profile_for(pid, tier):
         G["kinds"].update({"switch": 5, "mask": 3})
     elif pid == "C38":
         P["ops"].update({"empty_edit": 4, "static_edit": 8, "simulate": 4, "importance": 3, "undo": 6})
-        G["root_kinds"] = {"static": 6, "dimap": 1, "partial": 1, "closure": 1, "vmap": 1, "scan": 1}
+        G["root_kinds"] = {"static": 6, "dimap": 1, "partial": 1, "closure": 1, "vmap": 1, "scan": 1, "mix": 2}
         G["max_stmts"] = 4
+        G["choice_switch"] = 0.25
+        P["dep_switch_bias"] = 0.6
         P["undo_after"] = {"static_edit": 0.7, "empty_edit": 0.3}
     elif pid == "C04":
         P["ops"] = {"simulate": 10, "importance": 1, "update": 1}
@@ -375,6 +383,22 @@ def _static_addrs(node):
         if s not in seen:
             seen.add(s)
             out.append(s)
+    return out
+
+
+def _fed_switches(node, sr):
+    """{statement index of a switch-like call: index of the earlier statement
+    whose (random) value selects its branch} in static function sr."""
+    from sim.texpr import expr_refs
+
+    if unwrap(node)["k"] == "mix":
+        return {1: 0}
+    out = {}
+    for j, s in enumerate(sr["stmts"]):
+        if unwrap(s["callee"])["k"] in ("switch", "or_else") and s["args"]:
+            for r in expr_refs(s["args"][0]):
+                if r[0] == "v" and r[1] < j and sr["stmts"][r[1]]["callee"]["k"] == "dist":
+                    out[j] = r[1]
     return out
 
 
@@ -470,6 +494,15 @@ def gen_session(session_seed, pid, tier, profile=None):
                     elif rng.random() < 0.5 and t != ["N"]:
                         new_args[i] = sample_value(rng, t, oob=oob and t[0] == "I")
                         changed = True
+                ki = P.get("keep_index", 0.0)
+                if ki > 0 and unwrap(node)["k"] in ("switch", "or_else") and node["k"] in ("switch", "or_else") and rng.random() < ki:
+                    # same branch, other arguments: nothing may be resampled
+                    new_args[0] = src["args"][0]
+                    rest = [i for i, t in enumerate(ins) if i > 0 and t != ["N"]]
+                    if rest and new_args[1:] == list(src["args"][1:]):
+                        i = rng.choice(rest)
+                        new_args[i] = sample_value(rng, ins[i])
+                    changed = new_args != list(src["args"])
                 if not changed:
                     new_args = None
             st = {"op": op, "src": src["name"], "args": new_args, "key": key(), "out": new_slot()}
@@ -511,7 +544,20 @@ def gen_session(session_seed, pid, tier, profile=None):
                     st["subs"] = []
                 else:
                     subs = []
-                    for s in sr["stmts"]:
+                    fed = {}
+                    db = P.get("dep_switch_bias", 0.0)
+                    if db > 0:
+                        fed = _fed_switches(node, sr)
+                        if not (fed and rng.random() < db):
+                            fed = {}
+                    for j, s in enumerate(sr["stmts"]):
+                        if j in fed:
+                            continue  # the switch itself stays unaddressed (implicit EmptyRequest)
+                        if j in fed.values():
+                            # the choice that selects the branch is constrained: the
+                            # unaddressed switch sees its index change
+                            subs.append({"addr": s["addr"], "kind": "update", "constraint": gen_constraint(rng, s["callee"], "full")})
+                            continue
                         if rng.random() < 0.6:
                             kind = rng.choice(["update", "regenerate", "empty"])
                             ent = {"addr": s["addr"], "kind": kind}
